@@ -15,9 +15,10 @@ macro_rules! props {
                 $($id => $m::run(ctx),)*
                 _ => return false,
             }
-            if mdns {
+            if mdns && !crate::engine::secondary_profile() {
                 // the library logs through the `log` facade: the same spaces once more with
-                // every logging statement evaluated
+                // every logging statement evaluated (first build profile only: of the four
+                // combinations of build profile and log level, release + TRACE is left out)
                 ctx.second_pass();
                 match ctx.prop.as_str() {
                     $($id => $m::run(ctx),)*
